@@ -439,3 +439,108 @@ macro_rules! repr_probes {
         $o.line(&format!("{{\"op\":\"probes\",\"def\":{},\"ty\":\"{}\",\"probes\":{}}}", $def, stringify!($R), $crate::jlist(&out)));
     }};
 }
+
+// ------------------------------------------------------------------ EnumTable driver (C10)
+/// implemented by generated code for `<Enum>Table<u8>`; keys are declaration indices
+pub trait TableOps: Clone + PartialEq {
+    fn enabled() -> Vec<usize>;
+    fn disabled() -> Vec<usize>;
+    fn new_from(args: &[u8]) -> Self;                       // <Enum>Table::new(args[0], args[1], ..)
+    fn filled(x: u8) -> Self;
+    fn from_closure(f: &dyn Fn(usize) -> u8) -> Self;       // f receives the declaration index of the key
+    fn transform(&self, f: &dyn Fn(usize, u8) -> u8) -> Self;
+    fn read(&self, k: usize) -> u8;                         // table[key(k)]
+    fn write(&mut self, k: usize, v: u8);                   // table[key(k)] = v
+    fn all(mask: &[bool]) -> Option<Vec<u8>>;               // slot p = Some(10 + p) / None, then .all()
+    fn all_ok(mask: &[bool]) -> Result<Vec<u8>, u8>;        // slot p = Ok(10 + p) / Err(p), then .all_ok()
+    fn default_table() -> Self;
+}
+fn tb_slots<T: TableOps>(t: &T) -> String {
+    let v: Vec<String> = T::enabled().iter().map(|k| match catch(|| t.read(*k)) { Ok(x) => x.to_string(), Err(_) => "-1".to_string() }).collect();
+    jlist(&v)
+}
+fn tb_line(o: &mut Out, def: u32, call: &str, from: i64, h: u32, k: usize, v: i64, res: i64, panic: bool, slots: &str, extra: &str) {
+    o.line(&format!("{{\"op\":\"tb\",\"def\":{},\"call\":\"{}\",\"from\":{},\"h\":{},\"k\":{},\"v\":{},\"res\":{},\"panic\":{},\"slots\":{}{}}}",
+        def, call, from, h, k, v, res, jbool(panic), slots, extra));
+}
+pub fn table_drive<T: TableOps>(o: &mut Out, def: u32, depth: usize, steps: usize, seed: u64) {
+    let en = T::enabled();
+    let dis = T::disabled();
+    let n = en.len();
+    // constructors, each with distinct values per slot so that a swapped pair shows
+    let args: Vec<u8> = (0..n).map(|p| 100 + p as u8).collect();
+    let args_j: Vec<String> = args.iter().map(|x| x.to_string()).collect();
+    match catch(|| T::new_from(&args)) {
+        Ok(t) => tb_line(o, def, "new", -1, 0, 0, 0, 0, false, &tb_slots(&t), &format!(",\"args\":{}", jlist(&args_j))),
+        Err(_) => tb_line(o, def, "new", -1, 0, 0, 0, 0, true, "[]", &format!(",\"args\":{}", jlist(&args_j))),
+    }
+    let t0 = T::filled(2);
+    tb_line(o, def, "filled", -1, 1, 0, 2, 0, false, &tb_slots(&t0), "");
+    let tc = T::from_closure(&|k| (3 * k + 1) as u8);
+    tb_line(o, def, "closure", -1, 2, 0, 0, 0, false, &tb_slots(&tc), "");
+    let tt = tc.transform(&|k, old| ((2 * old as usize + k) % 251) as u8);
+    tb_line(o, def, "transform", 2, 3, 0, 0, 0, false, &tb_slots(&tt), &format!(",\"src_slots\":{}", tb_slots(&tc)));
+    let td = T::default_table();
+    tb_line(o, def, "default", -1, 4, 0, 0, 0, false, &tb_slots(&td), "");
+    // clone: equal and independent
+    { let c = tt.clone(); let eq = c == tt; tb_line(o, def, "clone", 3, 5, 0, 0, eq as i64, false, &tb_slots(&c), "");
+      let mut c2 = c.clone(); if n > 0 { c2.write(en[0], 77); }
+      tb_line(o, def, "read", -1, 5, if n > 0 { en[0] } else { 0 }, 0, if n > 0 { c.read(en[0]) as i64 } else { 0 }, false, &tb_slots(&c), ""); }
+    // every Some/None and Ok/Err mask
+    if n <= 6 {
+        for m in 0..(1u32 << n) {
+            let mask: Vec<bool> = (0..n).map(|p| m >> p & 1 == 1).collect();
+            let mj: Vec<String> = mask.iter().map(|b| (*b as u8).to_string()).collect();
+            match catch(|| T::all(&mask)) {
+                Ok(Some(v)) => tb_line(o, def, "all", -1, 0, 0, 0, 1, false, &jlist(&v.iter().map(|x| x.to_string()).collect::<Vec<_>>()), &format!(",\"mask\":{}", jlist(&mj))),
+                Ok(None) => tb_line(o, def, "all", -1, 0, 0, 0, 0, false, "[]", &format!(",\"mask\":{}", jlist(&mj))),
+                Err(_) => tb_line(o, def, "all", -1, 0, 0, 0, 0, true, "[]", &format!(",\"mask\":{}", jlist(&mj))),
+            }
+            match catch(|| T::all_ok(&mask)) {
+                Ok(Ok(v)) => tb_line(o, def, "all_ok", -1, 0, 0, 0, 0, false, &jlist(&v.iter().map(|x| x.to_string()).collect::<Vec<_>>()), &format!(",\"mask\":{}", jlist(&mj))),
+                Ok(Err(p)) => tb_line(o, def, "all_ok", -1, 0, 0, 0, p as i64, false, "[]", &format!(",\"mask\":{}", jlist(&mj))),
+                Err(_) => tb_line(o, def, "all_ok", -1, 0, 0, 0, 0, true, "[]", &format!(",\"mask\":{}", jlist(&mj))),
+            }
+        }
+    }
+    // indexing with a disabled variant panics and changes nothing (Index, then IndexMut)
+    for k in &dis {
+        let r = catch(|| t0.read(*k));
+        tb_line(o, def, "index_disabled", -1, 1, *k, 0, 0, r.is_err(), &tb_slots(&t0), "");
+        let mut c = t0.clone();
+        let r2 = catch(AssertUnwindSafe(|| c.write(*k, 9)));
+        tb_line(o, def, "index_disabled", -1, 1, *k, 9, 0, r2.is_err(), &tb_slots(&c), "");
+    }
+    // EVERY write sequence up to `depth` over all keys and values {0,1,2}, each edge on a clone of its parent (handle = 10 + level)
+    fn rec<T: TableOps>(o: &mut Out, def: u32, en: &[usize], parent: &T, level: u32, left: usize) {
+        for k in en {
+            for v in 0u8..3 {
+                let mut c = parent.clone();
+                let r = catch(AssertUnwindSafe(|| c.write(*k, v)));
+                tb_line(o, def, "write", (level - 1) as i64, level, *k, v as i64, 0, r.is_err(), &tb_slots(&c), "");
+                // read every key back explicitly
+                if left == 1 { for k2 in en { let rr = catch(|| c.read(*k2)); tb_line(o, def, "read", -1, level, *k2, 0, rr.clone().map(|x| x as i64).unwrap_or(-1), rr.is_err(), &tb_slots(&c), ""); } }
+                if left > 1 && r.is_ok() { rec(o, def, en, &c, level + 1, left - 1); }
+            }
+        }
+    }
+    // root of the tree = handle 10: a filled(1) table
+    let root = T::filled(1);
+    tb_line(o, def, "filled", -1, 10, 0, 1, 0, false, &tb_slots(&root), "");
+    if depth > 0 && n > 0 { rec(o, def, &en, &root, 11, depth); }
+    // long random write/read history in place on handle 1
+    let mut rng = Rng::new(seed ^ ((def as u64) << 8));
+    let mut t = t0;
+    for _ in 0..steps {
+        if n == 0 { break; }
+        let k = en[rng.below(n as u64) as usize];
+        if rng.below(3) == 0 {
+            let r = catch(|| t.read(k));
+            tb_line(o, def, "read", -1, 1, k, 0, r.clone().map(|x| x as i64).unwrap_or(-1), r.is_err(), &tb_slots(&t), "");
+        } else {
+            let v = rng.below(256) as u8;
+            let r = catch(AssertUnwindSafe(|| t.write(k, v)));
+            tb_line(o, def, "write", -1, 1, k, v as i64, 0, r.is_err(), &tb_slots(&t), "");
+        }
+    }
+}
